@@ -156,7 +156,9 @@ def build_tree(rng, nleaves, depth):
     if depth <= 0 or rng.random() < 0.2:
         return ['leaf', int(rng.integers(nleaves))]
     if rng.random() < 0.1:
-        return ['pow', build_tree(rng, nleaves, depth - 2), int([-5, -4, -3, -2, 2, 3, 4, 5, 6, 8][rng.integers(10)])]
+        # (a power of a LEAF: a power of a power is a product of up to 64 factors, whose drift the library's own converting
+        #  constructors refuse -- out of the stated domain, section 10.3)
+        return ['pow', ['leaf', int(rng.integers(nleaves))], int([-5, -4, -3, -2, 2, 3, 4, 5, 6, 8][rng.integers(10)])]
     if rng.random() < 0.3:
         return ['inv', build_tree(rng, nleaves, depth - 1)]
     return ['mul', build_tree(rng, nleaves, depth - 1), build_tree(rng, nleaves, depth - 1)]
